@@ -103,7 +103,7 @@ def judge(ctx):
             return
 
 
-CFG = G.cfg(aux=True, constraints=("exclude", "pin", "min", "atmost", "exactly_k"), blocks=("cross", "cross", "multi"))
+CFG = G.cfg(aux=True, constraints=("exclude", "pin", "min", "atmost", "exactly_k"), blocks=("cross", "cross", "multi", "repeat", "merge", "nest"))
 P = D.DesignProperty(
     "C14", judge,
     rule=("case = generated design spec accepted by the constructor plus an aux seed that selects 6 one-hot assignments; "
